@@ -76,14 +76,32 @@ def generate(tier, rng):
         if o["flavour"] == "ssl":
             lines.append("hs c0 ok")
         nreq = rng.range(1, 4)
+        early = False       # the first part of this request's head was already read while the previous response was being sent
+        tag = "sent-driven"
         for j in range(nreq):
             data = gen_sim.req(target=b"/k%d" % j, headers=[gen_sim.HOST])
-            for part in gen_sim.split_reads(rng, data):
-                lines.append("read c0 " + hx(part))
-            lines += ["wdone c0"] * 4
+            if early:
+                lines.append("read c0 " + hx(data[cut:]))
+            else:
+                for part in gen_sim.split_reads(rng, data):
+                    lines.append("read c0 " + hx(part))
+            early = False
+            if j + 1 < nreq and rng.chance(1, 2):
+                # the peer starts its next request while this response is still being streamed: the first bytes of the
+                # next head (not a complete request) arrive between two pieces
+                nxt = gen_sim.req(target=b"/k%d" % (j + 1), headers=[gen_sim.HOST])
+                cut = rng.range(1, len(nxt) - 1)
+                k = rng.range(1, 3)
+                lines += ["wdone c0"] * k
+                lines.append("read c0 " + hx(nxt[:cut]))
+                lines += ["wdone c0"] * (4 - k)
+                early = True
+                tag = "sent-driven-early-next"
+            else:
+                lines += ["wdone c0"] * 4
         lines.append("state")
         cases.append(Case("c03-chk-%d" % i, lines, {"opts": o, "complete": True, "expect_chunked": nreq,
-                                                    "tags": ["sent-driven", o["flavour"]]}))
+                                                    "tags": [tag, o["flavour"]]}))
     return cases
 
 
